@@ -147,7 +147,9 @@ class Ctx:
                     break
         else:
             ctxm = mp.get_context("fork")
-            with ctxm.Pool(procs) as pool:
+            from mc.explore import die_with_parent  # noqa: PLC0415
+
+            with ctxm.Pool(procs, initializer=die_with_parent) as pool:
                 chunks = _chunks(it, chunk)
                 for res_list in pool.imap_unordered(_run_chunk, ((fn, ch) for ch in chunks)):
                     absorb(res_list)
